@@ -7,15 +7,18 @@ from .common import *
 from .tables import pin
 
 EXPLANATION = (
-    "Static clauses of 'the key is the XOR of one constant per (piece,colour,square), per rights set and per ep square': "
-    "(R1) Board::put / Board::remove XOR exactly the key indexed by the (piece, square, colour) they actually place / "
-    "take, on exactly their success paths (terms of the hash write reconstructed from MIR with everything below Board "
-    "expanded); (R2) every rights-stack operation toggles the key of the old top and of the new top, or leaves the top "
-    "unchanged; (R3) the same for the en-passant stack (top-only dependence); (R4) the hash field, the piece bitboards "
-    "and the three stacks are written only by their owner methods, which are called only by the Board delegators, and "
-    "no function hands out &mut to the private state types; (R5) this build's 848 key constants are non-zero and "
-    "pairwise distinct, and every index used on them is within the table dimension. XOR linearity and absence of "
-    "collisions between different positions are NOT decided; 'for every draw' is decided only for the draw compiled.")
+    "Static clauses of 'the key is the XOR of one constant per (piece,colour,square), per rights set and per ep square': (R1) "
+    'Board::put / Board::remove XOR exactly the key indexed by the (piece, square, colour) they actually place / take, on exactly their'
+    ' success paths (terms of the hash write reconstructed from MIR with everything below Board expanded); (R2) every rights-stack '
+    'operation toggles the key of the old top and of the new top, or leaves the top unchanged; (R3) the same for the en-passant stack '
+    '(top-only dependence); (R4) the hash field, the piece bitboards and the three stacks are written only by their owner methods, '
+    "which are called only by the Board delegators, and no function hands out &mut to the private state types; (R5) this build's 848 "
+    'key constants are non-zero and pairwise distinct, and every index used on them is within the table dimension. XOR linearity and '
+    "absence of collisions between different positions are NOT decided; 'for every draw' is decided only for the draw compiled. R2/R3 "
+    'cover every &mut Board method from which a push / pop on the rights or en-passant stack is reachable (discovered), each stack '
+    'separately; toggles may be skipped on a path that established old top == new top; further owner methods are admitted only when '
+    'called from delegators these rules decide.'
+)
 ASSUMPTIONS = [
     "rustc MIR construction, const evaluation and the chessfacts extractor are faithful",
     "an empty en-passant target contributes no key (the code's own convention: toggle of EMPTY is a no-op)",
